@@ -18,7 +18,7 @@ func init() {
 		ID:    "C16",
 		Title: "Shard and node placement is deterministic and replica-disjoint",
 		Decides: "the routing functions (ShardID, TraceShardID, Locator.Locate/Find, ApplyLocators, Hash, Entity.Marshal, the selector's Pick) reach no clock, random source, environment, or map iteration through static calls; the shard id is a remainder by the shard-count parameter on a path where zero has exited; " +
-			"every insertion into the selector's node list or lookup table (append or element write) is followed by a sort before the lock is released, both are accessed under the selector mutex, the lookup-table comparator is lex(group↑, shard↑) and the binary-search predicate of Pick is the matching lower bound; node insertion is idempotent (a name already present is not appended again) and table insertion is preceded by removal of the group's entries; the node index is (position+replica) mod the node count, unreachable with zero nodes; in the three liaison write loops a request that switches the metadata also resets the spec and the spec-derived tag locators in the same iteration (the shard of a write does not depend on the stream's history), and the measure sharding-key / entity locators are built from the schema's sharding-key / entity tag names respectively.; the cached sharding-key locator of a measure tracks its current schema (every add-or-update event installs it or removes the stale one)",
+			"every insertion into the selector's node list or lookup table (append or element write) is followed by a sort before the lock is released, both are accessed under the selector mutex, the lookup-table comparator is lex(group↑, shard↑) and the binary-search predicate of Pick is the matching lower bound; node insertion is idempotent (a name already present is not appended again) and table insertion is preceded by removal of the group's entries; the node index is (position+replica) mod the node count, unreachable with zero nodes; in the three liaison write loops a request that switches the metadata also resets the spec and the spec-derived tag locators in the same iteration (the shard of a write does not depend on the stream's history), and the measure sharding-key / entity locators are built from the schema's sharding-key / entity tag names respectively.; the cached sharding-key locator of a measure tracks its current schema (every add-or-update event installs it or removes the stale one); Pick hands its replica parameter to selectNode through an injective image only (never clamped)",
 		NotDecided: "distinctness of replicas as arithmetic when fewer nodes than copies, convergence over event orders as a history claim, hash quality, dynamic (interface) callees of the routing functions.",
 		Technique:  "static call-graph unreachability of impure sinks; SSA shape of the modulo; CFG must-follow (sort after insert); must-lockset; comparator truth tables; guarded-insert (membership test dominates append); per-iteration path enumeration of paired loop-carried updates (metadata ⇒ spec/locators); SSA def-use of the locator sources",
 		Run:        runC16,
@@ -130,6 +130,41 @@ func runC16(c *core.Ctx) {
 			} else {
 				r.Hold(rule, construct, r.fpos(f), "")
 			}
+		}
+		r.Floor(rule, 1)
+	}
+
+	// 0d. distinct replica ids must map to distinct node offsets: Pick hands its replica parameter to selectNode
+	// unchanged (or through an injective image: a conversion, + constant), never clamped or reduced
+	if f := r.fn("c16.replica-index-injective", "pkg/node", "(*roundRobinSelector).Pick"); f != nil {
+		rule := "c16.replica-index-injective"
+		n := 0
+		for _, in := range ssax.Find(f, ssax.CallTo("(*pkg/node.roundRobinSelector).selectNode")) {
+			n++
+			arg := in.(*ssa.Call).Call.Args[len(in.(*ssa.Call).Call.Args)-1]
+			var inj func(v ssa.Value, d int) bool
+			inj = func(v ssa.Value, d int) bool {
+				if d > 4 {
+					return false
+				}
+				switch x := v.(type) {
+				case *ssa.Parameter:
+					return strings.Contains(strings.ToLower(x.Name()), "replica")
+				case *ssa.Convert:
+					return inj(x.X, d+1)
+				case *ssa.ChangeType:
+					return inj(x.X, d+1)
+				case *ssa.BinOp:
+					if x.Op == token.ADD || x.Op == token.SUB {
+						if _, ok := x.Y.(*ssa.Const); ok {
+							return inj(x.X, d+1)
+						}
+					}
+				}
+				return false
+			}
+			r.Check(inj(arg, 0), rule, fmt.Sprintf("%s: selectNode#%d receives the replica id itself", ssax.FuncName(f), n), r.pos(in),
+				"the replica index is transformed (clamped, reduced, replaced) before it selects the node: several replica ids collapse onto one offset and the copies of a shard land on the same node although enough nodes exist")
 		}
 		r.Floor(rule, 1)
 	}
